@@ -113,8 +113,10 @@ class Model(HoloPyObject):
         dummy_scatterer = fields['_dummy_scatterer']
         scatterer_parameters = read_map(maps['scatterer'], parameters)
         scatterer = dummy_scatterer.from_parameters(scatterer_parameters)
-        kwargs = {'scatterer': scatterer, 'theory': fields['theory']}
-        for key in ['optics', 'model', 'theory']:
+        theory = fields['theory'].from_parameters(
+            read_map(maps['theory'], parameters))
+        kwargs = {'scatterer': scatterer, 'theory': theory}
+        for key in ['optics', 'model']:
             kwargs.update(read_map(maps[key], parameters))
         model = cls(**kwargs)
         if model._parameters == parameters:
